@@ -262,6 +262,19 @@ def main(a) -> int:
                     print(f"lim  {kind:22s} {c} rc={rc} (known limit: silent/KNOWN_LIMITS.json)", flush=True)
                     continue
                 line = f"{'ok  ' if ok else 'FAIL'} {kind:22s} {c} rc={rc} (expected {want})"
+                if kind == "clean" and ok:
+                    # every finding listed in known_findings.json for this property is still reported (a listed finding that silently stops being
+                    # reported - without a "fixed:" entry - means a rule has lost its grip, not that the defect is gone)
+                    with open(os.path.join(VERIF, "known_findings.json")) as f_:
+                        listed = {(k_["rule"], k_["key"]) for k_ in json.load(f_)["findings"] if k_["property"] == c}
+                    printed = set(re.findall(r"^KNOWN-FINDING: property=%s (\S+) (.+?): " % c, out, re.M))
+                    gone = sorted(l for l in listed if not any(l[0] == p_[0] and p_[1].startswith(l[1][:60]) for p_ in printed))
+                    if gone:
+                        ok = False
+                        line = f"FAIL {kind:22s} {c} listed known findings no longer reported: {gone[:3]}"
+                        print(line, flush=True)
+                        failures.append(line)
+                        continue
                 if kind.startswith("seed:") and ok:
                     rules = sorted(set(re.findall(r"^\[%s\] (R-[A-Z0-9.]+)" % c, out, re.M)))
                     line += " rules=" + ",".join(rules)
